@@ -97,6 +97,9 @@ type BlockResult struct {
 	TxResults  []*abcitypes.ResponseDeliverTx
 	ValUpdates []string // sorted "pubkey/power"
 	Err        error
+	// EventKinds counts "<type>/<first attribute key>" of all ABCI events of the block
+	// (reach probes only; events are not consensus data).
+	EventKinds map[string]int
 }
 
 // Propose makes the replica build a proposal block (PrepareProposal path).
@@ -164,6 +167,23 @@ func (r *Replica) Apply(block *cmttypes.Block, seenCommit *cmttypes.Commit) *Blo
 		return res
 	}
 	res.TxResults = resp.DeliverTxs
+	res.EventKinds = map[string]int{}
+	countEvents := func(evs []abcitypes.Event) {
+		for _, ev := range evs {
+			for _, a := range ev.Attributes {
+				res.EventKinds[ev.Type+"/"+string(a.Key)]++
+			}
+		}
+	}
+	if resp.BeginBlock != nil {
+		countEvents(resp.BeginBlock.Events)
+	}
+	if resp.EndBlock != nil {
+		countEvents(resp.EndBlock.Events)
+	}
+	for _, d := range resp.DeliverTxs {
+		countEvents(d.Events)
+	}
 	for _, vu := range resp.EndBlock.ValidatorUpdates {
 		res.ValUpdates = append(res.ValUpdates, fmt.Sprintf("%x/%d", vu.PubKey.GetEd25519(), vu.Power))
 	}
